@@ -3,7 +3,9 @@ package props
 import (
 	"context"
 	"fmt"
+	"github.com/avos-io/goat/gen/goatorepo"
 	"strings"
+	"time"
 
 	"google.golang.org/grpc"
 	"google.golang.org/grpc/codes"
@@ -19,10 +21,11 @@ func init() { register("C10", c10) }
 
 // c10Set describes the handlers in flight when the connection ends: each
 // letter is one RPC, in request order.
-//   o  unary that answers at once            U  unary blocked on its context
-//   R  stream blocked in RecvMsg             S  stream blocked in SendMsg (peer does not read)
-//   X  stream blocked on its context         e  stream that echoes one message and ends
-//   Z  stream that the peer resets; its handler notices the cancellation and then winds down slowly
+//
+//	o  unary that answers at once            U  unary blocked on its context
+//	R  stream blocked in RecvMsg             S  stream blocked in SendMsg (peer does not read)
+//	X  stream blocked on its context         e  stream that echoes one message and ends
+//	Z  stream that the peer resets; its handler notices the cancellation and then winds down slowly
 type c10End struct {
 	kind string // "read" | "write" | "stop"
 	at   int
@@ -66,6 +69,9 @@ func c10(tier string) []*explore.Scenario {
 	}
 	for _, end := range []string{"stop", "read-fails-on-first", "stop-then-serve"} {
 		out = append(out, c10TwoConns(end, 1))
+	}
+	for _, end := range []string{"stop", "read", "write", "none"} {
+		out = append(out, expiredStream("C10", end, 1))
 	}
 	return out
 }
@@ -347,4 +353,95 @@ func threadList() string {
 		parts = append(parts, fmt.Sprintf("%s(%s %s@%s spawned@%s)", t.ID, t.Name, t.Op, t.Site, t.SpawnSite))
 	}
 	return strings.Join(parts, "; ")
+}
+
+// expiredStream: a raw peer opens a bidi stream with a 50 ms grpc-timeout; the
+// handler ignores its context and only returns when released. The deadline
+// passes; the peer sends two more messages for the stream (they find it
+// registered with a done context); then the connection ends (Stop / read
+// failure / write failure / not at all) and the handler is released. Serve
+// returns, nothing is left behind, and on the wire nothing follows a reset the
+// server issued for that id (C06).
+func expiredStream(prop, end string, bound int) *explore.Scenario {
+	fam := prop + "/expired-stream"
+	return &explore.Scenario{
+		Name: prop + "/expired-stream/end=" + end, Family: fam, Prop: prop, Bound: bound, Horizon: time.Hour,
+		Run: func() {
+			w := env.NewWorld()
+			d := env.NewDirect(w, env.DirectOpts{Pipe: env.PipeOpts{Cap: 16}, NoClient: true})
+			vsched.GoNamed("peer-reader", func() {
+				for {
+					if _, err := d.Pipe.A.Read(context.Background()); err != nil {
+						return
+					}
+				}
+			})
+			r := w.Rec("s", "Bidi")
+			release := make(chan struct{})
+			w.Handlers["s"] = func(r *env.Rec, ss grpc.ServerStream) error {
+				<-release
+				return status.FromContextError(ss.Context().Err()).Err()
+			}
+			open := env.ReqOpen(1, env.MBidi, "s")
+			open.Header.Headers = append(open.Header.Headers, &goatorepo.KeyValue{Key: "grpc-timeout", Value: "50m"})
+			d.Pipe.A.Inject(open)
+			vsched.Settle()
+			vsched.Explore(true)
+			vsched.QuiesceTime() // the stream's deadline passes; its handler is still running
+			if r.HCtx == nil || r.HCtx.Err() == nil {
+				vsched.Fail(fam+"|harness", "the handler's deadline did not pass")
+			}
+			d.Pipe.A.Inject(env.ReqBody(1, env.MBidi, "late1"))
+			d.Pipe.A.Inject(env.ReqBody(1, env.MBidi, "late2"))
+			vsched.Quiesce()
+			switch end {
+			case "stop":
+				d.Srv.Stop()
+			case "read":
+				d.Pipe.A.Break()
+				d.Pipe.B.Break()
+			case "write":
+				d.Pipe.B.WriteFailAt = d.Pipe.B.NWritten
+				pr := w.Rec("p", "Unary")
+				_ = pr
+				d.Pipe.A.Inject(env.ReqUnary(5, "p", "x")) // its reply hits the write fault
+			}
+			vsched.Quiesce()
+			close(release)
+			vsched.Quiesce()
+			if end != "none" && !d.ServeDone {
+				vsched.Fail(fam+"|serve-hang", "a stream past its own deadline whose handler returned after the connection ended (%s): Serve did not return; threads: %s", end, threadList())
+			}
+			if !r.HReturned {
+				vsched.Fail(fam+"|handler-hang", "handler never returned")
+			}
+			// wire: nothing for id 1 after a reset the server issued for it
+			reset := false
+			for _, e := range d.Tap.Events {
+				if e.Dir != "b2a" || e.Rpc.GetId() != 1 {
+					continue
+				}
+				if reset {
+					vsched.Fail("C06/wire|server-after-reset", "the server reset stream 1 (a message arrived after the stream's deadline) and later wrote another envelope for it (trailer=%v)", e.Rpc.Trailer != nil)
+				}
+				if e.Rpc.Reset_ != nil {
+					reset = true
+				}
+			}
+			if end == "none" {
+				d.Pipe.A.Break()
+				d.Pipe.B.Break()
+				vsched.Quiesce()
+				if !d.ServeDone {
+					vsched.Fail(fam+"|serve-hang", "Serve did not return when the transport closed; threads: %s", threadList())
+				}
+			}
+			d.Pipe.A.Break()
+			d.Pipe.B.Break()
+			vsched.Quiesce()
+			if ts := vsched.Threads(); len(ts) > 0 {
+				vsched.Fail(fam+"|goroutine-leak", "after the connection ended and the handler returned: %s", threadList())
+			}
+		},
+	}
 }
